@@ -208,11 +208,21 @@ fn check_law(c: &LawCase) -> CaseReport {
         }
     };
     let fail = |sig: &str, why: String| CaseReport::fail(key.clone(), format!("{}:{}", c.law, sig), json!({"law": c.law, "lhs": c.lhs, "rhs": c.rhs, "why": why}));
-    let l = match ev(&c.lhs) {
+    let (lv, rv) = (ev(&c.lhs), ev(&c.rhs));
+    // over the offset scales C09 allows a product or sum that holds a scale to be refused: a law whose two sides
+    // are both refused is not broken (counted apart, so that a tree refusing everything shows in the evidence)
+    if c.law.starts_with("scale:") {
+        if let (Err(a), Err(b)) = (&lv, &rv) {
+            if !a.starts_with("panic") && !b.starts_with("panic") {
+                return CaseReport::pass(key, false, vec![intern("offset-scale-law(both sides refused)")]);
+            }
+        }
+    }
+    let l = match lv {
         Ok(v) => v,
         Err(e) => return fail("lhs-not-a-value", e),
     };
-    let r = match ev(&c.rhs) {
+    let r = match rv {
         Ok(v) => v,
         Err(e) => return fail("rhs-not-a-value", e),
     };
